@@ -215,13 +215,20 @@ def run_flatpack(R, rb, cb):
         ok = int((bl > 0).sum()) == gr * gc and ids == list(range(1, nb + 1)) and all(set(np.unique(x)) <= {0, int(x.max())} for x in bl)
         return ok, {"blocks": bl.tolist()}
     rp = C.reset_replayer(env.reset, ctx, key, lambda out: pred(out[0], out[1]), 256)
+    # NB: with three or more block rows (or columns) an inner block can lose BOTH contested border rows and a border column to its
+    # neighbours (3x2 layout: a 2-cell block is possible), so no particular cell of the cropped 3x3 box is guaranteed to be filled;
+    # the first version of this oracle assumed "centre cell always filled", which only holds for 2x2 (false alarm in the thorough
+    # tier, met when that tier was first run end to end; corrected here)
     for k in range(nb):
         cells = list(b[k].reshape(-1))
-        ident = b[k, 1, 1]
-        R.prove(f"block {k}: non-empty, all its cells carry one block id in 1..num_blocks (centre cell always filled)", A,
-                ((ident >= 1) & (ident <= nb) & all_([(x == 0) | (x == ident) for x in cells])).term(), replay=rp)
-    R.prove("block ids are pairwise distinct (a permutation of 1..num_blocks)", A,
-            all_([b[i, 1, 1] != b[j, 1, 1] for i in range(nb) for j in range(i)]).term(), replay=rp)
+        R.prove(f"block {k}: non-empty, every cell is 0 or a block id in 1..num_blocks, and all its non-zero cells carry the same id", A,
+                (any_([x > 0 for x in cells]) & all_([(x >= 0) & (x <= nb) for x in cells])
+                 & all_([(cells[i] == 0) | (cells[j] == 0) | (cells[i] == cells[j]) for i in range(len(cells)) for j in range(i)])).term(), replay=rp)
+    for i in range(nb):
+        for j in range(i):
+            ci, cj = list(b[i].reshape(-1)), list(b[j].reshape(-1))
+            R.prove(f"blocks {j},{i} carry different ids (ids are a permutation of 1..num_blocks)", A,
+                    all_([(x == 0) | (y == 0) | (x != y) for x in ci for y in cj]).term(), replay=rp)
     # global area count is a pigeonhole-hard query for the SAT back end (unknown at 120 s); it is decided on real keys instead and
     # recorded as such: the solver part covers ids/shape of every block for all keys, the area law is a 256-key sweep
     bad_area = []
@@ -330,12 +337,20 @@ def jobs(tier, seed):
     if tier == "thorough":
         js.append(("minesweeper/4x4x5", "checks.C10", "run_minesweeper", {"rows": 4, "cols": 4, "mines": 5}))
     js.append(("flatpack/2x2", "checks.C10", "run_flatpack", {"rb": 2, "cb": 2}))
+    js.append(("flatpack/3x2", "checks.C10", "run_flatpack", {"rb": 3, "cb": 2}))     # non-square, three block rows: inner blocks exist
     if tier == "thorough":
-        js.append(("flatpack/3x2", "checks.C10", "run_flatpack", {"rb": 3, "cb": 2}))
+        js.append(("flatpack/2x3", "checks.C10", "run_flatpack", {"rb": 2, "cb": 3}))
+        js.append(("flatpack/3x3", "checks.C10", "run_flatpack", {"rb": 3, "cb": 3}))
     for n in KEY_DEP:
         js.append((f"key-dependence/{n}", "checks.C10", "run_key_dependence", {"name": n}))
     for gs, na in ([(3, 2)] if tier == "quick" else [(3, 2), (4, 2), (4, 3)]):
         js.append((f"connector-walk/{gs}x{na}", "checks.C10", "run_connector_walk", {"gs": gs, "na": na}))
+    js.append(("lbf-food/6x2", "checks.C10", "run_lbf_food", {"g": 6, "F": 2}))
+    js.append(("lbf-food/8x6/edge", "checks.C10", "run_lbf_food", {"g": 8, "F": 6, "pairs": "none"}))   # density limit of the constructor's precondition
+    if tier == "thorough":
+        js.append(("lbf-food/7x4", "checks.C10", "run_lbf_food", {"g": 7, "F": 4}))
+        for lo in (0, 5, 10):
+            js.append((f"lbf-food/8x6/pairs{lo}", "checks.C10", "run_lbf_food", {"g": 8, "F": 6, "pairs": (lo, lo + 5)}))
     js.append(("shipped-data", "checks.C10", "run_concrete", {}))
     return js
 
@@ -557,3 +572,41 @@ def run_connector_walk(R, gs, na):
     for nm, v in use:
         R.prove(nm, UA, v.term() if not v.conc else bool(v), replay=use_rp(nm))
     R.sample({"generator": "Connector RandomWalkGenerator", "grid": n, "agents": A_, "argument": "base + step(frame/delta + graph lemma) + use"})
+
+
+# ------------------------------------------------------------------------------------------------ LBF: food placement
+def run_lbf_food(R, g, F, pairs="all"):
+    """LevelBasedForaging RandomGenerator.sample_food for EVERY key: no food on the grid's edge, no two foods on the same or on
+    4-adjacent cells ('ensuring no 2 are adjacent and none placed on the grid's edge').  Configurations at the density limit
+    accepted by the constructor are the interesting ones: when the running mask can become all-False, jax.random.choice silently
+    returns index 0 (a corner).  pairs: 'all' | 'none' | (lo, hi) slice of the pair list (8x8/6 food: ~10 min of solver time)."""
+    from jumanji.environments.routing.lbf.generator import RandomGenerator
+    gen = RandomGenerator(grid_size=g, num_agents=2, num_food=F, fov=2)
+    ctx = Ctx()
+    key = ctx.fresh_arr("key", (2,), np.uint32)
+    pos = S.call(ctx, gen.sample_food, key, R=R, name="lbf.RandomGenerator.sample_food")
+    A = list(ctx.assumptions)
+    R.nvars += 2 + len(A)
+    R.bound(grid=f"{g}x{g}", num_food=F, key="symbolic", draws="arbitrary uniform draws", pairs=str(pairs))
+    C.unwinding(R, ctx, A)
+    R.reach("sample_food", A)
+    p = vs(pos)
+
+    def conc_ok(P):
+        P = np.asarray(P)
+        inner = bool(((P >= 1) & (P <= g - 2)).all())
+        apart = all(abs(int(P[i, 0]) - int(P[j, 0])) + abs(int(P[i, 1]) - int(P[j, 1])) >= 2 for i in range(F) for j in range(i))
+        return inner and apart, {"grid": g, "food_positions": P.tolist()}
+    rp = C.reset_replayer(gen.sample_food, ctx, key, conc_ok, 2048)
+    for i in range(F):
+        R.prove(f"food {i} is not on the grid's edge", A, ((p[i, 0] >= 1) & (p[i, 0] <= g - 2) & (p[i, 1] >= 1) & (p[i, 1] <= g - 2)).term(), replay=rp)
+    pl = [(j, i) for i in range(F) for j in range(i)]
+    if pairs == "none":
+        pl = []
+    elif pairs != "all":
+        pl = pl[pairs[0]:pairs[1]]
+    for j, i in pl:
+        dr, dc = p[i, 0] - p[j, 0], p[i, 1] - p[j, 1]
+        R.prove(f"foods {j},{i} are neither on the same cell nor 4-adjacent", A,
+                (~(((dr == 0) & ((dc == 0) | (dc == 1) | (dc == -1))) | ((dc == 0) & ((dr == 1) | (dr == -1))))).term(), replay=rp)
+    R.sample({"generator": "LBF RandomGenerator.sample_food", "grid": g, "food": F})
